@@ -156,7 +156,9 @@ define(
     'sizes / legal groups), and every `continue` of exhaustive_search is '
     'justified by a documented filter (treatment share outside range, '
     'superset of a recorded over-budget group, optimistic budget outside '
-    'range; volume ratio / required budget outside the inclusive bounds).  '
+    'range; volume ratio / required budget outside the inclusive bounds), '
+    'every element that is not skipped is expanded / pushed and no loop is '
+    'left early (flow obligations).  '
     'Completeness and best-first of the whole '
     'exhaustive search against a brute-force oracle is a bounded run-time '
     'contract (<= 5-6 geos).',
